@@ -224,7 +224,8 @@ def _iter_sources(body, e):
     out = set()
     for x in e.walk():
         if x.k == "local":
-            nm = body.local_name(x.extra)
+            from rules import roles
+            nm = roles.name_of(body, x.extra)
             if nm:
                 out.add(nm)
             # follow iterator locals: `iter` defined by into_iter(&vec)
@@ -282,6 +283,27 @@ def check_ack(ctx):
             return bool(_names(body, e) & {"first_error"})
         edges = A.pred_edges(body, is_first_error, "None")
         R.guard(ctx, inst, body, oks, edges, "Ok(()) only when no worker reported an error")
+        # every flush round addresses *all* workers: a worker that already drained its shards (count == 0) may still be
+        # writing them, so skipping "idle" workers would acknowledge data that is not durable yet
+        from rules import roles
+        pw = roles.locals_with_role(body, "pending_workers")
+        n_defs = 0
+        FILTERS = ("Iterator::filter", "Iterator::filter_map", "Iterator::take", "Iterator::skip", "Iterator::step_by",
+                   "Iterator::take_while", "Iterator::skip_while", "Vec::retain", "Iterator::flat_map")
+        for l in pw:
+            for d in body.defs.get(l, []):
+                v = A.tracer(body, transparent=False).node_value(d)
+                n_defs += 1
+                chain = [c.extra for c in v.calls()]
+                rng = [x for x in v.walk() if x.k == "agg" and x.extra and x.extra.split("::")[-1] == "Range" and "ops::" in x.extra]
+                full = bool(rng) and len(rng[0].a) == 2 and (rng[0].a[0].extra or {}).get("val") == 0 and rng[0].a[1].has_field("WriteBuffer", "worker_channels") and rng[0].a[1].has_call("Vec::len")
+                bad = [c for c in chain if any(path_matches(c, f) for f in FILTERS)]
+                ctx.check(full and not bad and any(path_matches(c, "Iterator::collect") for c in chain), inst, "PROVENANCE", body.path,
+                          "a flush round asks every worker (0..worker_channels.len(), unfiltered)", body.where(d), {"expr": v.show(), "filtered_by": bad})
+        ctx.check(n_defs == 2, inst, "anchor", body.path, "pending_workers is (re)built twice: initially and after retirements released space (found %d)" % n_defs, None)
+        for n in body.calls():
+            if R.call_matches(n.ev, "Vec::retain") and "pending_workers" in _names(body, R.recv_expr(body, n)):
+                ctx.fail(inst, "PROVENANCE", body.path, "pending_workers is filtered in place", body.where(n.id))
         fpd = ctx.sites(body, R.call("write_buffer::flush_pending_deletions"), inst, exact=1)
         R.dom(ctx, inst, body, fpd, oks, "retirements flushed before Ok(())", a_desc="flush_pending_deletions")
         for f in fpd:
@@ -312,7 +334,8 @@ def check_ack(ctx):
         R.guard(ctx, inst, body, resp_push, send_ok, "a response receiver is queued only after its request was sent (Ok edge of send)")
         for rv in recv:
             o = A.origins(body, R.recv_expr(body, body.nodes[rv]))
-            names = {body.local_name(l) for (k, l) in o if k == "local"}
+            from rules import roles
+            names = {roles.name_of(body, l) for (k, l) in o if k == "local"}
             ctx.check("responses" in names, inst, "PROVENANCE", body.path, "the receiver awaited comes from the queued responses",
                       body.where(rv), {"origins": sorted(n for n in names if n)})
         # a worker answering Ok(true) is pushed back onto pending_workers
@@ -403,14 +426,15 @@ def check_error_absorbed(ctx, inst, body, call_nids, err_local_name):
     if len(edges) < 1:
         ctx.fail(inst, "GUARD", body.path, "Err outcome of the awaited response is never inspected", body.where(call_nids[0]) if call_nids else None)
         return
-    locs = [l for l in range(len(body.locals)) if body.local_name(l) == err_local_name]
+    from rules import roles
+    locs = roles.locals_with_role(body, err_local_name)
     sets = []
     for l in locs:
         for d in body.defs.get(l, []):
             v = A.tracer(body, transparent=False).node_value(d)
             if v.k == "agg" and (v.extra or "").endswith("Option::Some"):
                 sets.append(d)
-    already = A.pred_edges(body, lambda e: e.k == "local" and body.local_name(e.extra) == err_local_name, "Some")
+    already = A.pred_edges(body, lambda e: e.k == "local" and e.extra in locs, "Some")
     nexts = R.call("Iterator::next")(body)
     for (sw, label) in edges:
         tgt = [s for (s, l) in body.nodes[sw].succ if l == label]
@@ -427,13 +451,8 @@ def _agg_const_true(body, nid):
 
 
 def _names(body, e):
-    out = set()
-    for x in e.walk():
-        if x.k == "local" and body.local_name(x.extra):
-            out.add(body.local_name(x.extra))
-        if x.k == "arg" and x.extra[1]:
-            out.add(x.extra[1])
-    return out
+    from rules.common import names_of
+    return names_of(body, e)
 
 
 def _loop_exits_after(body, nodes):
